@@ -344,6 +344,38 @@ def parser_leg(ck, b):
     ck.cov["parser_leg_programs"] = len(reqs)
 
 
+def coqchk_all(ck):
+    """thorough tier of this designated check: re-check every Props module (and everything it depends on) with the
+    independent checker coqchk and record the axioms it reports for the whole development"""
+    import glob
+    mods = ["DDP.Props." + os.path.basename(f)[:-2] for f in sorted(glob.glob(os.path.join(vlib.COQ, "Props", "C*.v")))
+            if os.path.exists(f[:-2] + ".vo")]
+    try:
+        p = subprocess.run(["coqchk", "-silent", "-o", "-Q", vlib.COQ, "DDP"] + mods, capture_output=True, text=True, timeout=3600)
+    except subprocess.TimeoutExpired:
+        ck.broken_obligation("coqchk over all Props modules timed out", "")
+        return
+    out = p.stdout + p.stderr
+    axioms = []
+    take = False
+    for l in out.splitlines():
+        if l.strip().startswith("* Axioms"):
+            take = True
+            continue
+        if take:
+            if l.strip().startswith("*") or not l.strip():
+                take = False
+            else:
+                axioms.append(l.strip())
+    ck.cov["coqchk"] = dict(modules=mods, rc=p.returncode, axioms=axioms,
+                            type_in_type="relying on type-in-type: <none>" in out, unsafe_fixpoints="unsafe (co)fixpoints: <none>" in out,
+                            positivity_assumed="positivity is assumed: <none>" in out)
+    allowed = {"functional_extensionality_dep", "sig_not_dec", "sig_forall_dec", "classic", "eq_rect_eq", "proof_irrelevance", "JMeq_eq"}
+    foreign = [a for a in axioms if a.split(".")[-1] not in allowed]
+    if p.returncode != 0 or foreign or not (ck.cov["coqchk"]["type_in_type"] and ck.cov["coqchk"]["unsafe_fixpoints"] and ck.cov["coqchk"]["positivity_assumed"]):
+        ck.broken_obligation("coqchk rejects the development or reports a foreign axiom / switched-off check: rc=%d foreign=%s" % (p.returncode, foreign), out[-3000:])
+
+
 def main():
     ck = Check(PID, "proof")
     b = Build()
@@ -443,6 +475,8 @@ def main():
         rule="histories of Declare/Lookup/Search/Copy over %d tokens (placeholders of 23 types x value/Referenz incl. three Kombinationen printed 'Punkt', aliases, definitions, lists); "
              "non-trivial = at least two distinct declared keys or a rejected duplicate; distinct by operation sequence; all insertion orders of every %d-subset of the print-alike pool enumerated" % (len(toks), 4 if ck.quick else 5)))
     parser_leg(ck, b)
+    if not ck.quick:
+        coqchk_all(ck)
     ck.sample(dict(history=hist_lines(hists[0]), implementation=impl[0], model=mod[0]))
     ck.sample(dict(history=hist_lines(hists[-1]), implementation=impl[-1], model=mod[-1]))
     ck.finish()
